@@ -97,17 +97,34 @@ def make_job(rng, jid, option, coarse=False, **kw):
 
 
 def run(ctx):
+    explore(ctx, ctx.n(120, 3000), ctx.n(36, 600), p_degenerate=0.6, tag="m")
+    ctx.notes.append("partial by nature: the Lean theorems cover index logic, guards and the allocation state machine of the model; "
+                     "the compiled engine's memory behaviour is observed with hardened / sanitizer builds on sampled inputs")
+
+
+def search(ctx):
+    """failing-input search (an anchor, a theorem or the correspondence is broken, no failing input known yet): the hardened
+    and the sanitizer builds over a larger set of degenerate shapes, coarse steps and histories than the quick tier, until
+    the time budget is used"""
+    rounds = 0
+    while ctx.time_left() > 40 and not ctx.violations and rounds < 30:
+        ctx.count("search_rounds")
+        explore(ctx, 240, 60, p_degenerate=0.9, tag="x%d_" % rounds, with_model=False, p_coarse=0.5)
+        rounds += 1
+    ctx.notes.append("search(): %d extra rounds of 240 degenerate scripts on the hardened build (60 of them also under ASan/UBSan)" % rounds)
+
+
+def explore(ctx, n, n_asan, p_degenerate=0.6, tag="m", with_model=True, p_coarse=0.3):
     rng = ctx.rng
-    n = ctx.n(120, 3000)
     jobs = []
     for i in range(n):
         option = lc.OPTIONS[i % 3]
-        coarse = (option != "gillespie") and rng.random() < 0.3
-        kw = {"degenerate": rng.random() < 0.6, "policy": lc.POLICIES[(i // 3) % 4],
+        coarse = (option != "gillespie") and rng.random() < p_coarse
+        kw = {"degenerate": rng.random() < p_degenerate, "policy": lc.POLICIES[(i // 3) % 4],
               "max_steps": 40 if option != "gillespie" else 12, "space_kind": ["grid", "graph"][(i // 12) % 2] if i % 5 else None}
-        jobs.append(make_job(rng, "m%d" % i, option, coarse=coarse, **kw))
+        jobs.append(make_job(rng, "%s%d" % (tag, i), option, coarse=coarse, **kw))
     res = {}
-    builds = [("plain", jobs), ("hard", jobs), ("asan", jobs[:ctx.n(36, 600)])]
+    builds = [("plain", jobs), ("hard", jobs), ("asan", jobs[:n_asan])]
     for kind, js in builds:
         res[kind] = lc.run_jobs([dict(j) for j in js], kind=kind, chunk=ctx.n(8, 40), parallel=ctx.n(8, 8), stall=ctx.n(15, 60))
     ops, metas = [], []
@@ -155,7 +172,7 @@ def run(ctx):
         if "plain" in hashes and "hard" in hashes and hashes["plain"] != hashes["hard"]:
             ctx.violation("result-depends-on-build", "trajectories differ bitwise between the plain and the assertion-hardened build",
                           case, impl=hashes["hard"], expected=hashes["plain"])
-    answers = ctx.model.run(ops) if ops else []
+    answers = ctx.model.run(ops) if (ops and with_model) else []
     for (job, ob, case), ans in zip(metas, answers):
         if ans is None:
             continue
@@ -165,9 +182,6 @@ def run(ctx):
         d = c09.compare_model(job, ob, ans)
         if d is not None:
             ctx.disagree("lifecycle", case, d[0], d[1])
-    ctx.notes.append("partial by nature: the Lean theorems cover index logic, guards and the allocation state machine of the model; "
-                     "the compiled engine's memory behaviour is observed with hardened / sanitizer builds on sampled inputs")
-    ctx.notes.append("engine_never_faults_partial: no end-to-end checked-access interpreter of the six algorithms (sections 1-4 + registry instead)")
 
 
 def replay(ctx, rec):
